@@ -341,6 +341,28 @@ class NumReader:
   def has(self, label):
     return label in self.a or label in self.s
 
+  def jacdot_real(self, point, body, c):
+    """column of the REAL support.jac_dot_dof (through a forwarding wrapper kernel) on this reader's arrays"""
+    import numpy as np
+    import warp as wp
+
+    from checks import kernels_c05 as K
+
+    if not self.rd("body_isdofancestor", body, c):
+      return [0.0] * 3, [0.0] * 3
+    A = self.a
+    ia = lambda l: wp.array(np.ascontiguousarray(A[l], dtype=np.int32), dtype=int)
+    va = lambda l, t: wp.array(np.ascontiguousarray(A[l], dtype=np.float32), dtype=t)
+    jp, jr = wp.zeros(1, dtype=wp.vec3), wp.zeros(1, dtype=wp.vec3)
+    wp.launch(
+      K.jac_dot_dof_wrap,
+      dim=1,
+      inputs=[ia("body_parentid"), ia("body_rootid"), ia("jnt_type"), ia("jnt_dofadr"), ia("dof_bodyid"), ia("dof_jntid"), ia("body_isdofancestor"), va("subtree_com_in", wp.vec3), va("cdof_in", wp.spatial_vector), va("cvel_in", wp.spatial_vector), va("cdof_dot_in", wp.spatial_vector), wp.vec3(*[float(x) for x in point]), int(body), int(c), int(self.tid[0])],
+      outputs=[jp, jr],
+      device="cpu",
+    )
+    return [float(x) for x in jp.numpy()[0]], [float(x) for x in jr.numpy()[0]]
+
 
 class SymReader:
   def __init__(self, kt, U):
@@ -450,6 +472,50 @@ def tree_pre(R, b, cols):
 mjOBJ_SITE = 6
 
 
+def chain_cases(R, b):
+  """all dof chains (strictly decreasing dof ids in [0, U)) hanging off the weld root of body b:
+  (name, index substitutions, guard)"""
+  import itertools
+
+  bw = R.rd("body_weldid", b)
+  d0 = sub(add(R.rd("body_dofadr", bw), R.rd("body_dofnum", bw)), 1)
+  out = []
+  for n in range(R.U + 1):
+    for ch in itertools.combinations(reversed(range(R.U)), n):
+      if n == 0:
+        out.append(("none", [], lt(d0, 0)))
+        continue
+      # dofadr := d0 + 1 - dofnum, i.e. exactly the case "last dof of the weld root == ch[0]"
+      sb = [(R.rd("body_dofadr", bw), sub(ch[0] + 1, R.rd("body_dofnum", bw)))]
+      for i, d in enumerate(ch):
+        sb.append((R.rd("dof_parentid", d), ch[i + 1] if i + 1 < n else -1))
+      out.append(("-".join(map(str, ch)), sb, True))
+  return out
+
+
+def tree_cases(R, is_site, b1, b2, is_sparse):
+  """complete case split for connect / weld: site- or body-type; dense: value of nv; sparse: the two dof chains"""
+  ns, nv = R.scalar("nsite"), R.scalar("nv")
+  kinds = (("site", And(is_site, gt(ns, 0))), ("body", Not(is_site)))
+  if not is_sparse:
+    return [(f"{kind}@nv{v}", [(nv, v)], g) for kind, g in kinds for v in range(R.U + 1)]
+  out = []
+  for kind, g in kinds:
+    for n1, s1, g1 in chain_cases(R, b1):
+      for n2, s2, g2 in chain_cases(R, b2):
+        # the two chains share dof_parentid: drop syntactically contradictory combinations
+        m = {}
+        ok = True
+        for t, v in s1 + s2:
+          k = t.get_id() if hasattr(t, "get_id") else t
+          if k in m and m[k] != v:
+            ok = False
+          m[k] = v
+        if ok:
+          out.append((f"{kind}@{n1}|{n2}", s1 + s2, And(g, g1, g2)))
+  return out
+
+
 def expected_equality_connect(R, is_sparse=False):
   w, t = R.tid
   eqid = R.rd("eq_connect_adr", t)
@@ -471,8 +537,8 @@ def expected_equality_connect(R, is_sparse=False):
   rows = []
   nvn = R.U if R.sym else int(nv)
   for r in range(3):
-    row = _row(cpos[r], norm2 if R.sym else math.sqrt(max(norm2, 0.0)), iw, solref, solimp, 0.0, 0.0, EQUALITY, eqid)
-    row["pos_imp_sq"] = bool(R.sym)
+    row = _row(cpos[r], math.sqrt(max(norm2, 0.0)) if not R.sym else None, iw, solref, solimp, 0.0, 0.0, EQUALITY, eqid)
+    row["pos_imp_norm_of"] = [0, 1, 2]
     jd = 0.0
     for cc in range(nvn):
       d1, _ = reader_jacdot(R, pos1, b1, cc)
@@ -490,7 +556,12 @@ def expected_equality_connect(R, is_sparse=False):
   if R.sym and is_sparse:
     cols = [z3.Int("c")] + list(range(R.U))
     pre.append(("sparse walk invariants: weld root shares ancestors / tree root / cvel; dof_parentid decreases; body_isdofancestor = chain from the weld root's last dof; chains <= unroll bound", And(*(tree_pre(R, b1, cols) + tree_pre(R, b2, cols)))))
-  return {"act": ne(R.rd("eq_active_in", w, eqid), False), "counter": "ne_out", "rows": rows, "J": J, "pre": pre}
+  cases = tree_cases(R, is_site, b1, b2, is_sparse) if R.sym else []
+  if R.sym and is_sparse:
+    iwg = And(*[eq(_mrd(R, "body_invweight0", R.rd("body_weldid", b), k=0), _mrd(R, "body_invweight0", b, k=0)) for b in (b1, b2)])
+    for row in rows:
+      row["invweight_guard"] = iwg
+  return {"act": ne(R.rd("eq_active_in", w, eqid), False), "counter": "ne_out", "rows": rows, "J": J, "pre": pre + [("nv >= 0", ge(nv, 0))], "cases": cases, "cases_first": True}
 
 
 def _mrd(R, label, *idx, k=0):
@@ -868,7 +939,7 @@ def compare_thread(name, exp, Rn, mjm, mjd, Jm, refsafe=True, both_ok=True):
   for r, (i, row) in enumerate(zip(rows, exp["rows"])):
     Jref = np.array([float(jsum(exp["J"](r, c))) for c in range(nv)])
     vel = float(Jref @ np.asarray(Rn.a["qvel_in"][w][:nv], dtype=float))
-    full = ref_row(refsafe, float(mjm.opt.timestep), row["pos_aref"], row["pos_imp"] if not row.get("pos_imp_sq") else math.sqrt(max(row["pos_imp"], 0.0)), row["invweight"], row["solref"], row["solimp"], row["margin"], vel, row["frictionloss"], tp, oid)
+    full = ref_row(refsafe, float(mjm.opt.timestep), row["pos_aref"], row["pos_imp"], row["invweight"], row["solref"], row["solimp"], row["margin"], vel, row["frictionloss"], tp, oid)
     if not np.allclose(Jref, Jm[i], rtol=1e-4, atol=1e-5):
       bad.append(f"{name} id {oid} row {r}: J {Jref} vs mujoco {Jm[i]}")
     extra = row.get("aref_extra", 0.0)
